@@ -111,7 +111,7 @@ def py_closed(e, ef, n):
 def py_borders(E, th, kr):
     b = [0] + [i for i in range(1, len(E)) if E[i] - E[i - 1] > th] + [len(E)]
     if kr:
-        b = [i for i in b if i % 2 == 0]
+        b = [i for i in b if i % 2 == 0 or i == len(E)]
     return list(zip(b, b[1:]))
 
 
